@@ -24,6 +24,9 @@ CLAIMED = {
  "C02": ("Hypothesis op-list histories on every container kind vs. independent numpy assembly of the total covariance",
          "Generated-input search over histories (add_error / add_matrix_error cov|cor+err / disable / enable / value changes through every setter, fill, rebin, model parameter and x changes / reads of err, cov_mat, cor_mat, cov_mat_inverse, get_total_error with every axis spelling) on indexed, xy, histogram, unbinned containers and the three parametric models; after every read the result is compared with sum_enabled (sigma sigma^T) o rho assembled by the harness from its own source list and current values (signed relative references), plus symmetry, PSD, inverse consistency and bit-exact restoration by disable+enable.",
          "Trusts the ~30-line numpy reference in kverif/props/c02.py; sizes 1..6; magnitudes 1e-2..1e2; histogram rebin keeps the number of bins; inverse judged only for cond <= 1e8.", "DESIGN.md §4 C02"),
+ "C01": ("Hypothesis-generated problem specs (all fit types x all built-in cost identifiers x source mixes x constraints x parameter points) vs. numpy reference cost",
+         "Generated-input search: a JSON problem spec is built into a real fit through the public API and, independently, evaluated by a numpy/scipy reference written from the documented formulas (covariance assembly incl. signed relative references and model-referenced sources at the current parameters, x->y projection with the analytic slope, log-determinant, constraint costs, Poisson/Gaussian NLL and ratios, Gauss approximation, unbinned NLL); cost_function_value, total_cov_mat, total_error and the model are compared at several parameter points before and after do_fit; metamorphic twins check 'disabled == never declared' and order independence.",
+         "Trusts kverif/fitspec.py Ref (Cholesky-based); ROUND tolerance scaled by cond(V)/1e3 plus a per-point bound for kafe2's finite-difference slope; non-PD / cond>1e6 cases discarded (counted); Poisson identifiers without sources; histogram fits with exact bin integration and without model-relative sources.", "DESIGN.md §4 C01"),
 }
 NOT_YET = "check not built yet in this session (work in progress; see DESIGN.md §10 build order)"
 
